@@ -104,6 +104,44 @@ def emit_dr(g, with_new=True, operand_eq=False):
             g.raw("impl %s {" % ty)
             g.emit(p, name="dr::%s::new" % ty)
             g.raw("}")
+        # ModuleHeader::{new, set_version, version} and utils::version (real bodies)
+        vsrc = Source.get("rspirv/utils/version.rs")
+        g.raw("""pub mod version {
+use vstd::prelude::*;
+use crate::spirv::Word;
+pub open spec fn version_word(major: u8, minor: u8) -> u32 { ((major as u32) << 16) | ((minor as u32) << 8) }
+// R6: u32::from_le_bytes([b0, b1, b2, b3]) / u32::to_le_bytes: std, validated by Kani (unit kani_version)
+#[verifier::external_body]
+pub fn le_word4(b: [u8; 4]) -> (r: u32)
+    ensures r == (b[0] as u32) | ((b[1] as u32) << 8) | ((b[2] as u32) << 16) | ((b[3] as u32) << 24),
+{ u32::from_le_bytes(b) }
+#[verifier::external_body]
+pub fn le_bytes4(w: u32) -> (r: [u8; 4])
+    ensures r[0] == (w & 0xff) as u8, r[1] == ((w >> 8) & 0xff) as u8, r[2] == ((w >> 16) & 0xff) as u8, r[3] == ((w >> 24) & 0xff) as u8,
+{ w.to_le_bytes() }""")
+        for fname, contract in (("create_version_from_word", "ensures r.0 == ((version >> 16) & 0xff) as u8, r.1 == ((version >> 8) & 0xff) as u8,"),
+                                ("create_word_from_version", "ensures r == version_word(major, minor),")):
+            p = Piece(vsrc.find("fn", fname))
+            p.name_result("r")
+            p.sub(r"Word::from_le_bytes\(", "le_word4(", "R6", required=False)
+            p.sub(r"version\.to_le_bytes\(\)", "le_bytes4(version)", "R6", required=False)
+            p.add_contract("    " + contract)
+            if fname == "create_word_from_version":
+                p.insert_at("{", " proof { assert(((0u8 as u32) | ((minor as u32) << 8) | ((major as u32) << 16) | ((0u8 as u32) << 24)) == version_word(major, minor)) by(bit_vector); } ", where="after", nth=1)
+            g.emit(p, name="utils::version::" + fname)
+            g.contract_clauses += 1
+        g.raw("} // mod version")
+        g.raw("impl ModuleHeader {")
+        for fname, rn, contract in (("new", "r", "ensures r.magic_number == spirv::MAGIC_NUMBER, r.bound == bound, r.generator == 0x000f_0000u32, r.reserved_word == 0,\n        r.version == version::version_word(spirv::MAJOR_VERSION, spirv::MINOR_VERSION),"),
+                                    ("set_version", None, "ensures final(self).version == version::version_word(major, minor), final(self).bound == old(self).bound,\n        final(self).magic_number == old(self).magic_number, final(self).generator == old(self).generator, final(self).reserved_word == old(self).reserved_word,"),
+                                    ("version", "r", "ensures r.0 == ((self.version >> 16) & 0xff) as u8, r.1 == ((self.version >> 8) & 0xff) as u8,")):
+            p = Piece(src.find("fn", "ModuleHeader::" + fname))
+            if rn:
+                p.name_result(rn)
+            p.add_contract("    " + contract)
+            g.contract_clauses += 1
+            g.emit(p, name="dr::ModuleHeader::" + fname)
+        g.raw("}")
         f = src.find("fn", "Instruction::new")
         p = Piece(f)
         p.name_result("r")
@@ -148,6 +186,35 @@ pub open spec fn module_view(m: Module) -> ModuleV {
         types_global_values: m.types_global_values@, functions: functions_view(m.functions@),
     }
 }
+// extensional equality of views, field by field (postconditions are stated with these so that the
+// solver proves them componentwise; `*_ext_eq` lemmas turn them into equalities)
+pub open spec fn block_ext(a: BlockV, b: BlockV) -> bool { a.label == b.label && a.instructions =~= b.instructions }
+pub open spec fn blocks_ext(a: Seq<BlockV>, b: Seq<BlockV>) -> bool {
+    a.len() == b.len() && forall|i: int| 0 <= i < a.len() ==> block_ext(#[trigger] a[i], b[i])
+}
+pub open spec fn function_ext(a: FunctionV, b: FunctionV) -> bool {
+    a.def == b.def && a.end == b.end && a.parameters =~= b.parameters && blocks_ext(a.blocks, b.blocks)
+}
+pub open spec fn functions_ext(a: Seq<FunctionV>, b: Seq<FunctionV>) -> bool {
+    a.len() == b.len() && forall|i: int| 0 <= i < a.len() ==> function_ext(#[trigger] a[i], b[i])
+}
+pub open spec fn module_ext(a: ModuleV, b: ModuleV) -> bool {
+    a.header == b.header && a.capabilities =~= b.capabilities && a.extensions =~= b.extensions
+    && a.ext_inst_imports =~= b.ext_inst_imports && a.memory_model == b.memory_model && a.entry_points =~= b.entry_points
+    && a.execution_modes =~= b.execution_modes && a.debug_string_source =~= b.debug_string_source
+    && a.debug_names =~= b.debug_names && a.debug_module_processed =~= b.debug_module_processed
+    && a.annotations =~= b.annotations && a.types_global_values =~= b.types_global_values
+    && functions_ext(a.functions, b.functions)
+}
+pub proof fn blocks_ext_eq(a: Seq<BlockV>, b: Seq<BlockV>) requires blocks_ext(a, b) ensures a == b {
+    assert forall|i: int| 0 <= i < a.len() implies a[i] == b[i] by { assert(block_ext(a[i], b[i])); }
+    assert(a =~= b);
+}
+pub proof fn functions_ext_eq(a: Seq<FunctionV>, b: Seq<FunctionV>) requires functions_ext(a, b) ensures a == b {
+    assert forall|i: int| 0 <= i < a.len() implies a[i] == b[i] by { assert(function_ext(a[i], b[i])); blocks_ext_eq(a[i].blocks, b[i].blocks); }
+    assert(a =~= b);
+}
+pub proof fn module_ext_eq(a: ModuleV, b: ModuleV) requires module_ext(a, b) ensures a == b { functions_ext_eq(a.functions, b.functions); }
 pub proof fn blocks_view_push(bs: Seq<Block>, b: Block)
     ensures blocks_view(bs.push(b)) == blocks_view(bs).push(block_view(b)),
 { assert(blocks_view(bs.push(b)) =~= blocks_view(bs).push(block_view(b))); }
